@@ -33,20 +33,22 @@ Qed.
 
 Lemma one_closing_tag : forall ds ks tr s,
   run step (init ds ks) tr = Some s ->
-  closes (o_wire (s_o s)) <= 1 /\
-  (closes (o_wire (s_o s)) = 1 <-> o_cl (s_o s) = true /\ o_pend (s_o s) = false) /\
+  o_att (s_o s) <= 1 /\ closes (o_wire (s_o s)) <= o_att (s_o s) /\
+  (o_att (s_o s) = 1 <-> o_cl (s_o s) = true /\ o_pend (s_o s) = false) /\
+  (o_wfail (s_o s) = false -> closes (o_wire (s_o s)) = o_att (s_o s)) /\
   (forall i e, (kind_at ks i KClose \/ kind_at ks i KServe) -> returned s i e ->
-     closes (o_wire (s_o s)) = 1).
+     o_cl (s_o s) = true /\ o_att (s_o s) = 1).
 Proof.
   intros ds ks tr s Hr.
   destruct (INV_run ds ks tr s Hr) as [Hw _].
-  destruct (wire_ok_count _ Hw) as (H1 & H2 & _).
-  split; [exact H1|]. split; [exact H2|].
-  intros i e Hk Hres. apply H2.
+  destruct (wire_ok_count _ Hw) as (H1 & H2 & H3 & H4 & _).
+  split; [exact H1|]. split; [exact H2|]. split; [exact H3|]. split; [exact H4|].
+  intros i e Hk Hres.
   pose proof (roles_run ds ks tr s Hr i) as Hrole.
   assert (Hne : a_role (s_a s i) <> RPlain).
   { unfold kind_at in Hk. destruct Hk as [Hk|Hk]; rewrite Hk in Hrole; rewrite Hrole; discriminate. }
-  exact (proj1 (closer_returned s i e (CINV_run ds ks tr s Hr) Hne Hres)).
+  pose proof (proj1 (closer_returned s i e (CINV_run ds ks tr s Hr) Hne Hres)) as Hc.
+  split; [exact (proj1 Hc)|exact (proj2 H3 Hc)].
 Qed.
 
 (* ---- clause 2 ---- *)
@@ -59,7 +61,7 @@ Lemma nothing_after_close : forall ds ks tr s,
 Proof.
   intros ds ks tr s Hr. pose proof (INV_run ds ks tr s Hr) as HI.
   split.
-  - destruct HI as [Hw _]. exact (proj2 (proj2 (wire_ok_count _ Hw))).
+  - destruct HI as [Hw _]. exact (proj2 (proj2 (proj2 (proj2 (wire_ok_count _ Hw))))).
   - intros Hcl tr2 s2 H2. exact (run_frozen tr2 s s2 HI Hcl H2).
 Qed.
 
@@ -77,18 +79,22 @@ Qed.
 
 Lemma serve_outcomes : forall ds ks tr s i e,
   run step (init ds ks) tr = Some s -> kind_at ks i KServe -> returned s i e ->
-  o_cl (s_o s) = true /\ i_cl (s_i s) = true /\ closes (o_wire (s_o s)) = 1 /\
-  outcome_rel (a_cause (s_a s i)) e /\
-  (e = ENil <-> a_cause (s_a s i) = CPeerClose).
+  o_cl (s_o s) = true /\ i_cl (s_i s) = true /\ o_att (s_o s) = 1 /\
+  outcome_rel' (o_wfail (s_o s)) (a_cause (s_a s i)) e /\
+  (e = ENil -> a_cause (s_a s i) = CPeerClose) /\
+  (o_wfail (s_o s) = false -> a_cause (s_a s i) = CPeerClose -> e = ENil).
 Proof.
   intros ds ks tr s i e Hr Hk Hres.
   pose proof (roles_run ds ks tr s Hr i) as Hrole. unfold kind_at in Hk. rewrite Hk in Hrole. cbn in Hrole.
   destruct (serve_returned s i e (CINV_run ds ks tr s Hr) Hrole Hres) as (Ho & Hi & Hc & Hrel).
   split; [exact (proj1 Ho)|]. split; [exact Hi|].
-  split; [exact (proj2 (proj1 (proj2 (one_closing_tag ds ks tr s Hr))) Ho)|].
-  split; [exact Hrel|].
-  destruct (a_cause (s_a s i)); cbn in Hrel; try contradiction; split; intro H; try congruence;
-    try (destruct Hrel; congruence); try discriminate.
+  split; [exact (proj2 (proj1 (proj2 (proj2 (one_closing_tag ds ks tr s Hr)))) Ho)|].
+  split; [exact Hrel|]. split.
+  - intro He. destruct Hrel as [Hrel|(_ & _ & Hw)]; [|congruence].
+    destruct (a_cause (s_a s i)); cbn in Hrel; try contradiction; try congruence.
+    destruct Hrel; congruence.
+  - intros Hf Hcl. destruct Hrel as [Hrel|(Hw & _)]; [|congruence].
+    rewrite Hcl in Hrel. exact Hrel.
 Qed.
 
 Lemma read_after_input_closed : forall s i k s',
@@ -130,10 +136,11 @@ Lemma source_tables :
   (sc_send_records_opening_element = true /\ sc_negotiator_records_ws = true /\
    sc_reader_ws_close_is_eof = true) /\
   sc_statelock_blocking_calls = [] /\
-  (sv_serve_eof_identity = true /\ sc_serve_reads_context_every_turn = true).
+  (sv_serve_eof_identity = true /\ sc_serve_reads_context_every_turn = true) /\
+  sc_closesession_sets_bit_before_write = true.
 Proof.
   split; [exact tbl_out_lockers|]. split.
   - destruct tbl_guards as (_ & A & B & C & D & E). destruct tbl_reader_and_deadline as [F _]. tauto.
   - split; [exact tbl_setters|]. split; [exact tbl_serve_defer|]. split; [exact (conj (proj2 tbl_reader_and_deadline) tbl_setdeadline)|].
-    destruct tbl_close_tags as (_ & _ & A). destruct tbl_ws_framing as [B C]. split; [tauto|]. split; [exact tbl_statelock|exact tbl_serve_loop].
+    destruct tbl_close_tags as (_ & _ & A). destruct tbl_ws_framing as [B C]. split; [tauto|]. split; [exact tbl_statelock|]. split; [exact tbl_serve_loop|exact tbl_closesession_order].
 Qed.
